@@ -132,6 +132,8 @@ pub struct NameReg {
     /// (kind, variant ident) across all parts
     used: Vec<(Kind, String)>,
     all: Vec<String>,
+    /// argument lists of earlier methods by name (only lists free of type parameters)
+    pub shapes: Vec<(String, Vec<Arg>)>,
 }
 
 impl NameReg {
@@ -206,7 +208,22 @@ fn gen_handler(
     mk: &mut Markers,
 ) -> Method {
     let name = reg.fresh(t, part, kind, opts.s2_names);
-    let args = gen_args(t, nparams, assoc, opts, mk);
+    // a name shared with a handler of another kind often shares its argument shape too
+    let shared = reg.shapes.iter().find(|(n, _)| *n == name).map(|(_, a)| a.clone());
+    let args = match shared {
+        Some(a) if t.chance(60) => a,
+        _ => gen_args(t, nparams, assoc, opts, mk),
+    };
+    {
+        let mut used = vec![];
+        for a in &args {
+            a.ty.params_used(&mut used);
+        }
+        if used.is_empty() {
+            let plain: Vec<Arg> = args.iter().map(|a| Arg { attrs: vec![], ..a.clone() }).collect();
+            reg.shapes.push((name.clone(), plain));
+        }
+    }
     let err = if custom_err && t.chance(50) { ErrTy::Custom } else { ErrTy::Std };
     let resp = gen_resp(t, nparams);
     let resp_explicit = kind == Kind::Query && !matches!(resp, RespTy::Param(_)) && t.chance(20);
